@@ -364,6 +364,11 @@ def _default_env(e):
     return env
 
 
+def env_of(node):
+    """module environment of the module owning ``node`` (public alias of _default_env)"""
+    return _default_env(node)
+
+
 def try_fold(e, env=None, default=None):
     if env is None and isinstance(e, ast.AST):
         env = _default_env(e)
